@@ -18,24 +18,25 @@ open P2sh P2sh.Core
 theorem statement_balanced (fuel : Nat) (s : CStmt) (C : List Instr) (K : List Val) (pos k : Nat) (ctx : List LoopCtx)
     (stk g g' : List Val) (f : Flow)
     (h : codeAt C pos (compileS pos k ctx s)) (hp : poolAt K k (constsS s)) (he : evalS fuel g s = some (g', f)) :
-    ∃ st', Steps C K ⟨pos, stk, g⟩ st' ∧ st'.pc = exitPc ctx (pos + bytes (compileS pos k ctx s)) f ∧ st'.stk = stk :=
-  ⟨_, compileS_correct fuel s C K pos k ctx stk g g' f h hp he, rfl, rfl⟩
+    Steps C K ⟨pos, stk, g⟩ ⟨exitPc ctx (pos + bytes (compileS pos k ctx s)) f, stk, g'⟩ :=
+  compileS_correct fuel s C K pos k ctx stk g g' f h hp he
 
 theorem statements_balanced (fuel : Nat) (ss : List CStmt) (C : List Instr) (K : List Val) (pos k : Nat) (ctx : List LoopCtx)
     (stk g g' : List Val) (f : Flow)
     (h : codeAt C pos (compileP pos k ctx ss)) (hp : poolAt K k (constsP ss)) (he : evalP fuel g ss = some (g', f)) :
-    ∃ st', Steps C K ⟨pos, stk, g⟩ st' ∧ st'.stk = stk :=
-  ⟨_, compileP_correct fuel ss C K pos k ctx stk g g' f h hp he, rfl⟩
+    Steps C K ⟨pos, stk, g⟩ ⟨exitPc ctx (pos + bytes (compileP pos k ctx ss)) f, stk, g'⟩ :=
+  compileP_correct fuel ss C K pos k ctx stk g g' f h hp he
 
 /-- a loop — `while` or `loop`, labelled or not — runs in constant stack: whatever the number
 of iterations of a terminating run, and however the loop is left (falsey condition, `break`,
 a `break` / `continue` addressed to an enclosing loop), the machine leaves it with the stack
-it entered it with -/
+it entered it with, at the loop's exit (the end of its code, or the target of the jump that left it) and
+with the globals of the reference evaluation -/
 theorem loop_constant_stack (fuel : Nat) (s : CStmt) (hloop : (∃ lbl c body, s = .whileS lbl c body) ∨ (∃ lbl body, s = .loopS lbl body))
     (C : List Instr) (K : List Val) (pos k : Nat) (ctx : List LoopCtx)
     (stk g g' : List Val) (f : Flow) (h : codeAt C pos (compileS pos k ctx s)) (hp : poolAt K k (constsS s))
     (he : evalS fuel g s = some (g', f)) :
-    ∃ st', Steps C K ⟨pos, stk, g⟩ st' ∧ st'.stk = stk ∧ st'.g = g' := by
+    ∃ st', Steps C K ⟨pos, stk, g⟩ st' ∧ st'.pc = exitPc ctx (pos + bytes (compileS pos k ctx s)) f ∧ st'.stk = stk ∧ st'.g = g' := by
   rcases hloop with ⟨lbl, c, body, rfl⟩ | ⟨lbl, body, rfl⟩
   · exact while_constant_stack fuel lbl c body C K pos k ctx stk g g' f h hp he
   · exact Core.loop_constant_stack fuel lbl body C K pos k ctx stk g g' f h hp he
@@ -43,10 +44,11 @@ theorem loop_constant_stack (fuel : Nat) (s : CStmt) (hloop : (∃ lbl c body, s
 /-- `break` and `continue` leave the stack as it is: after the jump the machine has the
 stack the statement (and hence the loop it leaves or restarts) was entered with -/
 theorem break_continue_balanced (l : Option String) (C : List Instr) (K : List Val) (pos k : Nat) (ctx : List LoopCtx) (stk g : List Val)
-    (hb : codeAt C pos (compileS pos k ctx (.breakS l)))
-    (hp : poolAt K k (constsS (.breakS l))) :
-    Steps C K ⟨pos, stk, g⟩ ⟨breakTarget ctx l, stk, g⟩ :=
-  compileS_correct 1 (.breakS l) C K pos k ctx stk g g (.brk l) hb hp (by simp [evalS])
+    (hp : poolAt K k []) :
+    (codeAt C pos (compileS pos k ctx (.breakS l)) → Steps C K ⟨pos, stk, g⟩ ⟨breakTarget ctx l, stk, g⟩) ∧
+    (codeAt C pos (compileS pos k ctx (.continueS l)) → Steps C K ⟨pos, stk, g⟩ ⟨contTarget ctx l, stk, g⟩) :=
+  ⟨fun hb => compileS_correct 1 (.breakS l) C K pos k ctx stk g g (.brk l) hb hp (by simp [evalS]),
+   fun hc => compileS_correct 1 (.continueS l) C K pos k ctx stk g g (.cont l) hc hp (by simp [evalS])⟩
 
 /-- non-vacuity: `let i = 0; loop { i = i + 1; if i > 2 { break; } }` ends with `i = 3`, normally -/
 example : evalP 40 [.null]
@@ -56,8 +58,8 @@ example : evalP 40 [.null]
 
 theorem expression_pushes_one (e : CExpr) (C : List Instr) (K : List Val) (pos k : Nat) (stk g : List Val) (v : Val) (g' : List Val)
     (h : codeAt C pos (compile pos k e)) (hp : poolAt K k (consts e)) (he : eval g e = some (v, g')) :
-    ∃ st', Steps C K ⟨pos, stk, g⟩ st' ∧ st'.stk.length = stk.length + 1 :=
-  ⟨_, compile_correct e C K pos k stk g v g' h hp he, by simp⟩
+    ∃ st', Steps C K ⟨pos, stk, g⟩ st' ∧ st'.pc = pos + bytes (compile pos k e) ∧ st'.stk = v :: stk ∧ st'.g = g' :=
+  ⟨_, compile_correct e C K pos k stk g v g' h hp he, rfl, rfl, rfl⟩
 
 
 /-! ## calls (`P2sh.Core.Fn`: functions and closures)
